@@ -232,6 +232,9 @@ func (o *Oracle) processRequest(priv *keys.PrivateKey, req request) error {
 	if ready {
 		ready = !incTx.isSent
 		incTx.isSent = true
+		if ready {
+			incTx.sentTx = readyTx
+		}
 	}
 	incTx.time = time.Now()
 	incTx.attempts++
@@ -252,7 +255,12 @@ func (o *Oracle) processFailedRequest(priv *keys.PrivateKey, req request) {
 		return
 	} else if incTx.isSent {
 		// Tx was sent but not yet persisted. Try to pool it again.
-		o.sendTx(incTx.tx)
+		incTx.RLock()
+		sent := incTx.sentTx
+		incTx.RUnlock()
+		if sent != nil {
+			o.sendTx(sent)
+		}
 		return
 	}
 
@@ -262,6 +270,9 @@ func (o *Oracle) processFailedRequest(priv *keys.PrivateKey, req request) {
 	if ready {
 		ready = !incTx.isSent
 		incTx.isSent = true
+		if ready {
+			incTx.sentTx = readyTx
+		}
 	}
 	incTx.time = time.Now()
 	incTx.attempts++
